@@ -218,12 +218,22 @@ def self_test():
         raise AssertionError('methods shared by AnsiStr and AnsiString that the twin check does not exercise: %r' % gap)
 
 
+_SP = []
+
+
+def _specs():
+    if not _SP:
+        _SP.append(st.one_of(st.just([]), gen.specs(CFG, 1, 3)))
+        _SP.append(st.one_of(gen.texts(0, 6), gen.ansi_text(CFG)))
+    return _SP
+
+
 @st.composite
 def strat_ctor(draw):
     names = ['red', 'bold', 'blue', 'underline', 'bg_red', 'no_bold_faint']
     k = draw(st.sampled_from(['str', 'str', 'S', 'S', 's', 's']))
     if k == 'str':
-        t = draw(st.one_of(gen.texts(0, 6), gen.ansi_text(CFG)))
+        t = draw(_specs()[1])
         src = {'k': 'str', 't': t}
     else:
         t = draw(gen.texts(0, 6))
@@ -232,7 +242,7 @@ def strat_ctor(draw):
             a = draw(st.integers(0, 4))
             rs.append({'s': [{'k': 'name', 'v': draw(st.sampled_from(names))}], 'a': a, 'b': draw(st.one_of(st.none(), st.integers(a + 1, 7)))})
         src = {'k': k, 't': t, 'r': rs}
-    s = draw(st.one_of(st.just([]), gen.specs(CFG, 1, 3), gen.specs(CFG, 1, 3)))
+    s = draw(_specs()[0])
     return {'src': src, 's': s}
 
 
